@@ -1,2 +1,26 @@
-(* C10: statements only; theorems are added as the model of the anchored mechanism is proved *)
-From GGRS Require Import Base.
+(* C10 — surviving peers agree on the cut-off of a dropped player.  Statements only.
+   The code violates the property; the faithful session model violates it in the same way. *)
+From GGRS Require Import Base Consts Queue Sync P2P Session.
+Open Scope Z_scope.
+
+(* Three peers (player 0 local; players 1 and 2 remote on two endpoints), prediction window 2.
+   Player 2's peer dies after this session received its frames 0..5; the session runs on to
+   frame 7 (its window).  The other survivor had only received frames 0..3 of player 2 and says so
+   in its gossip.  Adopting that cut-off schedules a rollback to frame 4 from frame 7: load_frame's
+   `cannot load frame outside of prediction window` assertion fires.  The same script panics the
+   real P2PSession (harness level `session`; corpus/C10-gossip-cutoff.session). *)
+Definition c10_round (f : Z) : list sop := [SRemote 1 f 1; SRemote 2 f 2; SLocal 0 0; SAdvance].
+Definition c10_witness : list sop :=
+  c10_round 0 ++ c10_round 1 ++ c10_round 2 ++ c10_round 3 ++ c10_round 4 ++ c10_round 5 ++
+  [SRemote 1 6 1; SLocal 0 0; SAdvance; SRemote 1 7 1; SLocal 0 0; SAdvance; SLocal 0 0; SAdvance;
+   SGossip 0 [mkcs false 7; mkcs false 7; mkcs true 3]; SLocal 0 0; SAdvance].
+Definition c10_start : p2p := session_start 3 2 false 0 [KLocal; KRemote 0; KRemote 1] [[1]; [2]] 0.
+
+Theorem C10_survivor_panics_refuted :
+  srun (fun x => x) c10_start c10_witness = Panic.
+Proof. vm_compute. reflexivity. Qed.
+
+(* ... and without the last gossip the same history is fine (the witness is minimal in that sense) *)
+Theorem C10_same_history_without_gossip_runs :
+  exists p outs, srun (fun x => x) c10_start (removelast (removelast (removelast c10_witness))) = Ok (p, outs).
+Proof. eexists. eexists. vm_compute. reflexivity. Qed.
